@@ -383,7 +383,7 @@ Theorem add_head_multi_self_old_refuted : exists q start num,
   abs (add_head_multi_self_old false 0%Z 3 q start num) <> slice (abs q) start num ++ abs q /\
   abs (add_head_multi_q false 0%Z 3 q (abs q) start num) = slice (abs q) start num ++ abs q.
 Proof.
-  exists (fst (run1 false 0%Z 3 [OEnsure 10 false 0 false; OAddTail 1%Z; OAddTail 2%Z; OAddTail 3%Z])), 0, 3.
+  exists (fst (run1 false 0%Z 3 [OEnsure 10%N false 0%N false; OAddTail 1%Z; OAddTail 2%Z; OAddTail 3%Z])), 0, 3.
   split; [apply run_refines; lia|]. split; [vm_compute; discriminate|vm_compute; reflexivity].
 Qed.
 
